@@ -241,16 +241,27 @@ pub fn run(thorough: bool) -> Report {
     let total = Mutex::new(Acc::default());
     let ctxs = contexts();
     let e1 = exprs(1, true);
-    let e2 = if thorough { exprs(2, true) } else { exprs(2, false) };
+    let e2 = exprs(2, false);
+    let e2u = if thorough { exprs(2, true) } else { vec![] };
     let mut jobs: Vec<String> = fixed_lines().iter().map(|s| s.to_string()).collect();
     for c in &ctxs {
         for e in &e1 {
             jobs.push(c.replace("{e}", &e.render_min()));
         }
     }
-    let deep_ctxs: Vec<&str> = if thorough { ctxs.clone() } else { vec!["PRINT {e}", "X = {e}", "X$ = {e}", "IF {e} THEN PRINT 1"] };
+    // two-operator expressions: plain leaves in the deep contexts (thorough: in every context),
+    // with unary leaf forms in the deep contexts (thorough only)
+    let deep: Vec<&str> = vec!["PRINT {e}", "X = {e}", "X$ = {e}", "IF {e} THEN PRINT 1"];
+    let deep_ctxs: Vec<&str> = if thorough { ctxs.clone() } else { deep.clone() };
     for c in &deep_ctxs {
         for e in &e2 {
+            if e.count_bin() == 2 {
+                jobs.push(c.replace("{e}", &e.render_min()));
+            }
+        }
+    }
+    for c in &deep[..2] {
+        for e in &e2u {
             if e.count_bin() == 2 {
                 jobs.push(c.replace("{e}", &e.render_min()));
             }
@@ -335,6 +346,7 @@ pub fn run(thorough: bool) -> Report {
         "contexts": ctxs.len(),
         "expressions_up_to_one_operator": e1.len(),
         "expressions_with_two_operators": e2.iter().filter(|e| e.count_bin() == 2).count(),
+        "expressions_with_two_operators_and_unary_leaf_forms": e2u.iter().filter(|e| e.count_bin() == 2).count(),
         "contexts_with_two_operator_expressions": deep_ctxs.len(),
         "programs_analysed": acc.programs,
         "accepted": acc.accepted,
